@@ -199,6 +199,22 @@ def r7_2(ctx):
                     ok = entry_guard is not None and (b.edge_dominates(entry_guard, loc[0]) or entry_guard[1] == loc[0])
                     ctx.ob("%s:returns-sentinel" % fn.split("::")[-1], ok, b.where(loc),
                            "returns the abort sentinel %d %s" % (e[1], "under the entry clock test" if ok else "on a path that is not the clock abort"))
+    # one deadline for the whole tree: every recursive search receives this node's own (start, t)
+    for fn in (GBM, ABS):
+        b = f.body(fn)
+        ex = Exprs(b)
+        sp, tp = params_by_type(b, "std::time::Instant"), params_by_type(b, "u128")
+        cb = f.body(ABS)
+        csp, ctp = params_by_type(cb, "std::time::Instant")[0] - 1, params_by_type(cb, "u128")[0] - 1
+        k = 0
+        for bb, t in sorted(b.iter_calls(callee=ABS)):
+            k += 1
+            a = ex.call_args(bb)
+            ok = sp and tp and a[csp] == ("arg", sp[0]) and a[ctp] == ("arg", tp[0])
+            n += 1
+            ctx.ob("%s:call#%d:same-deadline" % (fn.split("::")[-1], k), bool(ok), b.where(b.term_loc(bb)),
+                   "sub-search is given (%s, %s); must be this search's own (start, time allowance) so that every node and the root agree on expiry" % (
+                       show_expr(a[csp], b), show_expr(a[ctp], b)))
     # out_of_time is a pure comparison of a monotonic clock with its argument
     ob = f.body(OOT)
     callees = sorted({callee_of(t) for _, t in ob.iter_calls()})
@@ -206,6 +222,12 @@ def r7_2(ctx):
                "std::time::Instant::elapsed"}
     ctx.ob("out_of_time:pure-clock-comparison", set(callees) <= allowed and bool(callees), ob.where((0, 0)),
            "callees: %s" % callees)
+    # and its verdict is `elapsed >= allowance` of exactly its two parameters (monotone in the clock)
+    oex = Exprs(ob)
+    rets = [oex.rvalue(st["rv"], loc) for loc, st in ob.iter_stmts() if st["k"] == "assign" and st["place"]["local"] == 0]
+    okc = len(rets) == 1 and rets[0][0] == "bin" and rets[0][1] in ("Ge", "Gt") and rets[0][3] == ("arg", params_by_type(ob, "u128")[0]) and \
+        any(x[0] == "call" and x[1].endswith("duration_since") and ("arg", params_by_type(ob, "std::time::Instant")[0]) in x[2] for x in subexprs(rets[0][2]))
+    ctx.ob("out_of_time:elapsed>=allowance", okc, ob.where((0, 0)), "returns `%s`" % (show_expr(rets[0], ob)[:90] if rets else "?"))
     ctx.floor("sentinel sites", n, 3)
 
 
